@@ -119,6 +119,32 @@ def _sized_run_touched(entry, pkmod, src, r, k, expected, touch):
     return {"n_got": len(got) + 1, "end": "after the last packet: yielded " + bytes(extra).hex()[:40]}
 
 
+def _sized_run_regrown(entry, pkmod, r, k, expected, grow_by, mode):
+    """ONE file object framed, then given more content by the caller (appended, or emptied and refilled with a longer stream), then framed
+    again from the start: the second generator yields the packets the object holds THEN.  -> None or a description."""
+    import io
+    first = list(expected[:len(expected) - grow_by])
+    s1 = framing.build_stream(first, k)
+    s2 = framing.build_stream(list(expected), k)
+    f = io.BytesIO(s1)
+    items, end = pull(_make_gen(entry, pkmod, f, r, k), horizon=len(first) + 2)
+    if [bytes(i) for i in items] != first or end != "stop":
+        return {"run": 1, "n_got": len(items), "end": end}
+    if mode == "append":
+        f.seek(0, 2)
+        f.write(s2[len(s1):])
+    else:
+        f.seek(0)
+        f.truncate()
+        f.write(s2)
+    f.seek(0)
+    items, end = pull(_make_gen(entry, pkmod, f, r, k), horizon=len(expected) + 2)
+    got = [bytes(i) for i in items]
+    if got != list(expected) or end != "stop":
+        return {"run": 2, "got": [x.hex() for x in got[:6]], "n_got": len(got), "end": end}
+    return None
+
+
 def _socket_drive(entry, pkmod, r, k, n_expected):
     def drive(sock, on_item):
         g = _make_gen(entry, pkmod, sock, r, k)
@@ -259,6 +285,23 @@ def _task(task):
                                     t.violation({"kind": "touches-source-after-last-packet", "source": kind, "touch": touch},
                                                 {**base, "source": kind, "r": r, "touch": touch},
                                                 expected=[p.hex() for p in expected] + ["then StopIteration"], observed=bad)
+                # (b"') one file object framed, grown by the caller, framed again
+                if len(expected) >= 2:
+                    for r in (None, 1, 7):
+                        for grow_by in range(1, len(expected)):
+                            for mode in ("append", "refill"):
+                                try:
+                                    with case_alarm(20):
+                                        bad = _sized_run_regrown(entry, pkmod, r, k, expected, grow_by, mode)
+                                except CaseTimeout:
+                                    bad = {"end": "timeout"}
+                                t.evals += 1
+                                t.traces += 1
+                                t.outcomes["sized:" + ("ok" if bad is None else "mismatch")] += 1
+                                if bad:
+                                    t.violation({"kind": "framing-mismatch", "source": "bytesio-reused-after-growing", "mode": mode},
+                                                {**base, "source": "bytesio-reused-after-growing", "r": r, "grow_by": grow_by, "mode": mode},
+                                                expected=[p.hex() for p in expected], observed=bad)
                 # (b') other members of the file family: a gzip file object and a BufferedReader over a raw stream that answers every raw
                 # read with at most 3 bytes (both are io.BufferedIOBase, which is what the framer asks for)
                 if thr is None:
@@ -540,7 +583,7 @@ def run(ctx):
         "exhaustive": True,
         "bound": (f"all sequences of <= {max_len} packets over a 3-packet palette (data lengths 1, 2, 5), prefix lengths "
                   f"{'0,1,4' if ctx.quick else '0..7'}; bytes; BytesIO and real file with every read size None,1..L+1; a gzip file object and a BufferedReader over a raw stream "
-                  "delivering <= 3 bytes per raw read, read sizes None,1,7,L+1; BytesIO and real file that the caller closes / rewinds after taking exactly the packets they hold, then one more request (read sizes None,1,7,L+1, every trim literal); "
+                  "delivering <= 3 bytes per raw read, read sizes None,1,7,L+1; BytesIO and real file that the caller closes / rewinds after taking exactly the packets they hold, then one more request (read sizes None,1,7,L+1, every trim literal); one BytesIO framed, then appended to / emptied and refilled with a longer stream, then framed again (every split of the sequence); "
                   "scripted socket with read sizes {None,1,2,3,5,6,7,8,L} x EVERY fragmentation (state-hashed DFS; also: no recv() while a complete record is delivered and unyielded); "
                   "both entry points; trim literal rewritten to {0,5,17} and reached for real with a 21 MB stream; "
                   "max-size packet; stateless cross-check of the state merging on short streams; sized sources (bytes, BytesIO with 5 read sizes) additionally on "
@@ -598,6 +641,9 @@ def replay(case):
                 return {"sig": {"kind": "source-kinds-disagree", "history": "file-like source handed over at a non-zero position"},
                         "case": case, "observed": {"bytesio": oa, "file": ob}}
             return None
+        if src_kind == "bytesio-reused-after-growing":
+            bad = _sized_run_regrown(entry, pkmod, case.get("r"), k, expected, case["grow_by"], case["mode"])
+            return {"sig": {"kind": "framing-mismatch", "source": src_kind, "mode": case["mode"]}, "case": case, "observed": bad} if bad else None
         if case.get("touch"):
             bad = _sized_run_touched(entry, pkmod, CountingBytesIO(stream), case.get("r"), k, expected, case["touch"])
             if bad:
